@@ -6,6 +6,13 @@ pub mod c04 {
         use super::P;
         include!("seqs_var.in");
     }
+    // Concrete twins (DESIGN 6.7 round 3, 6.8): identical all-zero / all-one entries, whole image
+    // compared with the reference encoding -- value-dependent merging/skipping of entries.
+    pub mod fx {
+        use super::P;
+        use crate::tables::*;
+        include!("seqs_fx.in");
+    }
     pub mod fixed_tables {
         use super::P;
         include!("seqs_fixed.in");
